@@ -373,6 +373,58 @@ def gen_callbacks(loader, check, replay_on=True):
                             check.ob("macro_expr#argument-denotes-conv_C11", f"{inst} position={k}", p.ctx.pc, ir.den(r) == c_conv_den(a0, pt))
 
 
+# ------------------------------------------------------------------------------------------ call / definition text
+def gen_call_text(loader, check, replay_on=True):
+    SR, SC = irkit.C(loader, "SubRoutine"), irkit.C(loader, "SubRoutineCall")
+    check.under_contract(loader, SC.methods["il_write"], SC.methods["il_read"], SR.methods["il_read"], SR.methods["il_init"], SR.methods["check_for_bundle_usage"],
+                         irkit.C(loader, "Parameter").methods["il_read"])
+    G = loader.load("rzilcompiler.Transformer.ValueType").globals["VTGroup"]
+    IT = loader.load(irkit.CLS["SubRoutine"]).globals["SubRoutineInitType"]
+    for ret in T8:
+        inst = f"{tname(ret)} fn(uint16_t p0, HexInsnPktBundle *bundle, int64_t p2)"
+        check.instances_declared += 1
+
+        def setup(it, ret=ret):
+            ext = conc_vt(loader, (False, 64), G.EXTERNAL)
+            ext.fields["external_type"] = "HexInsnPktBundle *"
+            pars = [it.call(irkit.C(loader, "Parameter"), ["p0", conc_vt(loader, (False, 16))], {}), it.call(irkit.C(loader, "Parameter"), ["bundle", ext], {}),
+                    it.call(irkit.C(loader, "Parameter"), ["p2", conc_vt(loader, (True, 64))], {})]
+            sr = it.call(SR, ["fn", conc_vt(loader, ret), pars, "BODY;"], {})
+            a = [irkit.mk_operand(it, "Variable", (False, 16), "a0"), it.call(irkit.C(loader, "Parameter"), ["bundle", ext], {}), irkit.mk_operand(it, "Variable", (True, 64), "a2")]
+            return {"sr": sr, "call": it.call(SC, [sr, a], {}), "a": a}
+        ex = explore(loader, setup, lambda it, st: (it.call(it.getattr_(st["call"], "il_write"), [], {}), it.call(it.getattr_(st["call"], "il_read"), [], {}),
+                                                    it.call(it.getattr_(st["sr"], "il_init"), [IT.DECL], {}), it.call(it.getattr_(st["sr"], "il_init"), [IT.DEF], {})))
+        check.absorb(ex, f"call text {inst}")
+        if ex.paths:
+            check.instances_generated += 1
+        for p in ex.paths:
+            check.ob("SubRoutineCall.il_write#total", inst, p.ctx.pc, p.outcome == "return", detail="" if p.outcome == "return" else f"raises {p.value!r}")
+            if p.outcome != "return":
+                continue
+            w, r, decl, dfn = p.value
+            txt = w.render(lambda a: f"@{a.tag}") if isinstance(w, Tpl) else w
+            check.ob("SubRoutineCall.il_write#text: hex_<routine>(arguments in parameter order; values read, operands by name)", inst, p.ctx.pc, txt == "hex_fn(@a0, bundle, @a2)", detail=repr(txt))
+            check.ob("SubRoutineCall.il_write#each value argument read exactly once", inst, p.ctx.pc, all(p.state["a"][k].ghost.get("nreads", 0) == 1 for k in (0, 2)))
+            want_r = f'{"SIGNED" if ret[0] else "UNSIGNED"}({ret[1]}, VARL("ret_val"))'
+            check.ob("SubRoutineCall.il_read#text: ret_val converted to the declared return type", inst, p.ctx.pc, r == want_r, detail=repr(r))
+            want_d = "RZ_OWN RzILOpEffect *hex_fn(RZ_BORROW RzILOpPure *p0, HexInsnPktBundle *bundle, RZ_BORROW RzILOpPure *p2)"
+            check.ob("SubRoutine.il_init#declaration: one C parameter per routine parameter, in order, values as borrowed pures", inst, p.ctx.pc, decl == want_d, detail=repr(decl))
+            check.ob("SubRoutine.il_init#definition: declaration followed by the braced body", inst, p.ctx.pc, dfn == want_d + "{\nBODY;\n}", detail=repr(dfn))
+    # prologue: bodies that mention pkt / hi get the bundle prologue (otherwise the C body would not compile)
+    for body, want in (("x = pkt->y;", "{\nHexPkt *pkt = bundle->pkt;\nx = pkt->y;\n}"), ("f(hi);", "{\nconst HexInsn *hi = bundle->insn;\nf(hi);\n}"), ("x = 1;", "{\nx = 1;\n}")):
+        check.instances_declared += 1
+
+        def setup_b(it, body=body):
+            pars = [it.call(irkit.C(loader, "Parameter"), ["p0", conc_vt(loader, (False, 16))], {})]
+            return {"sr": it.call(SR, ["fn", conc_vt(loader, (True, 32)), pars, body], {})}
+        ex = explore(loader, setup_b, lambda it, st: st["sr"].fields["body"])
+        check.absorb(ex, "prologue")
+        if ex.paths:
+            check.instances_generated += 1
+        for p in ex.paths:
+            check.ob("SubRoutine.__init__#body prologue for pkt / hi", body, p.ctx.pc, p.outcome == "return" and p.value == want, detail=repr(p.value))
+
+
 # ------------------------------------------------------------------------------------------ registration / parameter types
 C_TYPES = {"int8_t": (True, 8), "uint8_t": (False, 8), "int16_t": (True, 16), "uint16_t": (False, 16), "int32_t": (True, 32), "uint32_t": (False, 32),
            "int64_t": (True, 64), "uint64_t": (False, 64), "int": (True, 32), "unsigned": (False, 32), "size4u_t": (False, 32), "size8s_t": (True, 64),
@@ -581,13 +633,13 @@ def replay_local_collision(a):
 
 
 def gen_task(loader, check, what, replay_on=True):
-    {"cast_arg_list": gen_cast_arg_list, "build_arg_list": gen_build_arg_list, "callbacks": gen_callbacks, "registration": gen_registration,
+    {"cast_arg_list": gen_cast_arg_list, "build_arg_list": gen_build_arg_list, "callbacks": gen_callbacks, "registration": gen_registration, "call_text": gen_call_text,
      "isolation": gen_isolation}[what](loader, check, replay_on)
 
 
 def generate_reduced(loader, check):
     global T8
-    for w in ("cast_arg_list", "build_arg_list", "callbacks", "registration", "isolation"):
+    for w in ("cast_arg_list", "build_arg_list", "callbacks", "registration", "call_text", "isolation"):
         gen_task(loader, check, w, False)
 
 
@@ -601,7 +653,7 @@ def run(check: Check):
     check.assume("A-NAMES: add_op through its contract")
     check.trust("T-STR: an f-string renders a non-negative int as a non-empty string of decimal digits (CPython); used to state the nested-call "
                 "disjointness lemma over digit strings instead of str.from_int")
-    check.run_parallel("contracts.c08", "gen_task", [{"what": w} for w in ("cast_arg_list", "build_arg_list", "callbacks", "registration", "isolation")], workers=WORKERS)
+    check.run_parallel("contracts.c08", "gen_task", [{"what": w} for w in ("cast_arg_list", "build_arg_list", "callbacks", "registration", "call_text", "isolation")], workers=WORKERS)
     run_mutants(check, MUTANTS, "contracts.c08", "generate_reduced")
     return check.finish(
         level="proof",
